@@ -15,6 +15,7 @@ import (
 	"strings"
 	"sync"
 	"testing"
+	"time"
 
 	"github.com/VKCOM/statshouse/internal/verif/mc"
 	"github.com/VKCOM/statshouse/internal/verif/vsched"
@@ -311,6 +312,8 @@ func c29FreeRun(t *testing.T, rep *mc.Report) {
 			for i := range ctxs {
 				ctxs[i], cancels[i] = context.WithCancel(context.Background())
 			}
+			base, cancelBase := context.WithCancel(context.Background())
+			watchdog := time.AfterFunc(300*time.Millisecond, cancelBase) // liveness of the companion only
 			var wg sync.WaitGroup
 			for _, prog := range sc.threads {
 				prog := prog
@@ -320,7 +323,7 @@ func c29FreeRun(t *testing.T, rep *mc.Report) {
 					for _, op := range prog {
 						switch op.kind {
 						case c29Acq:
-							if q.Acquire(context.Background(), op.user) == nil {
+							if q.Acquire(base, op.user) == nil {
 								q.Release()
 							}
 						case c29AcqCtx:
@@ -336,6 +339,8 @@ func c29FreeRun(t *testing.T, rep *mc.Report) {
 				}()
 			}
 			wg.Wait()
+			watchdog.Stop()
+			cancelBase()
 			for _, c := range cancels {
 				c()
 			}
